@@ -255,10 +255,14 @@ class BzrBranch(Branch, _RelockDebugMixin):
         """Release any locks held by this branch."""
         if self.control_files._lock_count == 1 and self.conf_store is not None:
             self.conf_store.save_changes()
+        was_locked = self.control_files.is_locked()
         try:
             self.control_files.unlock()
         finally:
-            if not self.control_files.is_locked():
+            # Only the last matching unlock releases the repository: an unlock
+            # of a branch that is not locked is refused above and must not
+            # touch the repository's own lock.
+            if was_locked and not self.control_files.is_locked():
                 self.repository.unlock()
                 # we just released the lock
                 self._clear_cached_state()
